@@ -8,6 +8,7 @@ import (
 	"encoding/hex"
 	"fmt"
 	"os"
+	"reflect"
 	"runtime"
 	"runtime/debug"
 	"strings"
@@ -515,7 +516,16 @@ func execOp(line string) string {
 			}
 			p := newPacket(kind)
 			_ = p.Unmarshal(a)
-			if err := p.Unmarshal(b); err != nil {
+			// a copy of the value taken now (sharing its slices, as `held := *p` does) must not change when p is decoded into again
+			held, t0 := shallowCopy(p), ""
+			if held != nil {
+				t0 = packetTokens(held)
+			}
+			err := p.Unmarshal(b)
+			if held != nil && packetTokens(held) != t0 {
+				return "mutated value-copied-from-the-receiver-before-the-second-Unmarshal"
+			}
+			if err != nil {
 				return "err"
 			}
 			return "ok " + bodyTokens(p)
@@ -954,10 +964,31 @@ func reuseSub(kind string, a, b []byte) string {
 	case "COMPOUND":
 		var c rtcp.CompoundPacket
 		_ = c.Unmarshal(a)
-		if c.Unmarshal(b) != nil {
+		held := c // shares the backing array, as any copy of the value a caller keeps does
+		t0 := packetsTokens([]rtcp.Packet(held))
+		err := c.Unmarshal(b)
+		if packetsTokens([]rtcp.Packet(held)) != t0 {
+			return "mutated value-copied-from-the-receiver-before-the-second-Unmarshal"
+		}
+		if err != nil {
 			return "err"
 		}
 		return "ok " + packetsTokens([]rtcp.Packet(c))
 	}
 	return w.String()
+}
+
+// shallowCopy: what `held := *p` gives a caller (struct copied, slices and pointers shared); nil for kinds it does not cover
+func shallowCopy(p rtcp.Packet) rtcp.Packet {
+	v := reflect.ValueOf(p)
+	if v.Kind() != reflect.Ptr || v.IsNil() {
+		return nil
+	}
+	c := reflect.New(v.Elem().Type())
+	c.Elem().Set(v.Elem())
+	q, ok := c.Interface().(rtcp.Packet)
+	if !ok {
+		return nil
+	}
+	return q
 }
